@@ -120,4 +120,88 @@ theorem app_phase_exact_13 (H : Crypto.Prims) (P : Prims) (L : SealLaws P) (kl :
   obtain ⟨h1, h2, _⟩ := app_phase_exact H P L kl cls macLen ver hv evs cars hc x s hs happ hev hq m
   exact ⟨h2, h1⟩
 
+/-- A2, handshake epoch — protected TLS 1.3 handshake records (whole messages, any number of records, either
+    direction, with or without Finished) export NOTHING, with and without `-a`, and leave the session related to the
+    sender after the epoch switches their Finished messages entail. -/
+theorem handshake13_exports_nothing (H : Crypto.Prims) (P : Prims) (L : SealLaws P) (kl : List Keylog.Key)
+    (cls : CipherClass) (macLen : Nat) (ver : Bytes) (hv : ver.length = 2) (hist : List (SEv × List Nat)) (x : Snd)
+    (s : Session.St Dec) (hs : Ready cls macLen x s) (hok : ∀ e ∈ hist, e.1.Ok cls macLen)
+    (hhs : ∀ e ∈ hist, ∃ srv ms f, e.1 = .hs13 srv ms f)
+    (hq : max x.c.seq x.s.seq + (evsOf hist).length ≤ seqLimit) (m : Bool) :
+    (Session.run (Pipeline.ops H P kl) m s (recsOf P L cls ver x hist)).traffic = s.traffic ∧
+    Ready cls macLen (after P L cls ver x (evsOf hist))
+      (Session.run (Pipeline.ops H P kl) m s (recsOf P L cls ver x hist)) := by
+  obtain ⟨_, h2, h3⟩ := session_exact H P L kl cls macLen ver hv hist x s hs hok hq m
+  refine ⟨?_, h3⟩
+  rw [h2]
+  have : ∀ (hist : List (SEv × List Nat)) (recs : List (Session.Rec × Bool)),
+      (∀ e ∈ hist, ∃ srv ms f, e.1 = SEv.hs13 srv ms f) → entriesOf hist recs = [] := by
+    intro hist
+    induction hist with
+    | nil => intro recs _; simp [entriesOf]
+    | cons e es ih =>
+      intro recs h
+      cases recs with
+      | nil => simp [entriesOf]
+      | cons r rs =>
+        obtain ⟨srv, ms, f, he⟩ := h e (by simp)
+        have := ih rs (fun e' h' => h e' (by simp [h']))
+        simp only [entriesOf, List.zipWith_cons_cons, List.flatten_cons, he, SEv.entries, List.nil_append] at this ⊢
+        exact this
+  rw [this _ _ hhs, List.append_nil]
+
+/-- A2, the whole TLS 1.3 connection after the ServerHello: from the handshake epoch (decryptor related to a sender
+    that still uses its handshake traffic keys), after the server's flight and the client's flight — each one record of
+    whole handshake messages ending the handshake with exactly one Finished — the sender protects with its application
+    traffic keys from sequence number 0, `Session` has exported nothing and has switched both directions
+    (`Props.C01.updateKeys_switch`), and every following history of application-data records is exported exactly. -/
+theorem tls13_after_finished_exact (H : Crypto.Prims) (P : Prims) (L : SealLaws P) (kl : List Keylog.Key)
+    (cls : CipherClass) (h13 : cls.is13 = true) (macLen : Nat) (ver : Bytes) (hv : ver.length = 2) (x : Snd)
+    (s : Session.St Dec) (hs : Ready cls macLen x s)
+    (sfl cfl : List HsMsg) (fs fc : Fresh) (cs cc : List Nat) (hs1 : finCount sfl = 1) (hc1 : finCount cfl = 1)
+    (hsok : ∀ m ∈ sfl, MsgOk m) (hcok : ∀ m ∈ cfl, MsgOk m)
+    (evs : List Ev) (cars : List (List Nat)) (hc : cars.length = evs.length) (happ : ∀ e ∈ evs, IsAppSend e)
+    (hq : max x.c.seq x.s.seq + (4 + evs.length) ≤ seqLimit) (m : Bool) :
+    let flights : List (SEv × List Nat) := [(.hs13 true sfl fs, cs), (.hs13 false cfl fc, cc)]
+    let xa := after P L cls ver x (evsOf flights)
+    let recs := wireRecs (run P L cls ver xa evs) cars
+    (xa.c.key = x.c.appKey ∧ xa.c.iv = x.c.appIv ∧ xa.c.seq = 0 ∧
+     xa.s.key = x.s.appKey ∧ xa.s.iv = x.s.appIv ∧ xa.s.seq = 0) ∧
+    (Session.run (Pipeline.ops H P kl) m s (recsOf P L cls ver x flights)).traffic = s.traffic ∧
+    (Session.run (Pipeline.ops H P kl) m s (recsOf P L cls ver x flights ++ recs)).traffic
+      = s.traffic ++ List.zipWith (fun e (r : Session.Rec × Bool) => (⟨some (evPt e), r.1, evSrv e, true⟩ : Session.Entry))
+          evs recs := by
+  intro flights xa recs
+  have hev : (evsOf flights).length = 4 := by
+    simp [flights, evsOf, SEv.evs, hs1, hc1]
+  obtain ⟨a1, a2⟩ := handshake13_exports_nothing H P L kl cls macLen ver hv flights x s hs
+    (by
+      intro e he
+      simp only [flights, List.mem_cons, List.mem_nil_iff, or_false] at he
+      rcases he with rfl | rfl
+      · exact ⟨h13, hsok⟩
+      · exact ⟨h13, hcok⟩)
+    (by
+      intro e he
+      simp only [flights, List.mem_cons, List.mem_nil_iff, or_false] at he
+      rcases he with rfl | rfl
+      · exact ⟨_, _, _, rfl⟩
+      · exact ⟨_, _, _, rfl⟩)
+    (by rw [hev]; omega) m
+  have hxa := after_two_flights P L cls ver x sfl cfl fs fc hs1 hc1
+  have hxa' : xa = after P L cls ver x ((SEv.hs13 true sfl fs).evs ++ (SEv.hs13 false cfl fc).evs) := by
+    simp [xa, flights, evsOf]
+  rw [← hxa'] at hxa
+  obtain ⟨hxc, hxs⟩ := hxa
+  have hseq : max xa.c.seq xa.s.seq = 0 := by rw [hxc, hxs]; simp
+  have hev13 : ∀ e ∈ evs, EvOk cls macLen e := by
+    intro e he
+    cases e with
+    | send srv typ pt f => exact sendOk_13 cls h13 macLen pt f
+    | switch srv => exact h13
+  obtain ⟨b1, b2, _⟩ := app_phase_exact H P L kl cls macLen ver hv evs cars hc xa _ a2 happ hev13
+    (by rw [hseq]; omega) m
+  refine ⟨by rw [hxc, hxs]; simp, a1, ?_⟩
+  rw [Session.run_append, b2, a1]
+
 end TLX.Props.C01Pipeline
